@@ -8,7 +8,12 @@ class C04(Prop):
     title = "NGAP decode inverts encode, and re-encode reproduces the bytes"
     lean_module = "Stgutg.Props.C04"
     gen = ["schema", "registry"]
-    theorems = []
+    theorems = [
+        "Stgutg.Props.C04.constrained_whole_number", "Stgutg.Props.C04.length_determinant",
+        "Stgutg.Props.C04.integer_roundtrip", "Stgutg.Props.C04.enumerated_roundtrip",
+        "Stgutg.Props.C04.octet_string_roundtrip", "Stgutg.Props.C04.string_roundtrip",
+        "Stgutg.Props.C04.bit_string_roundtrip",
+    ]
     domains = [Domain("aper-rt", 600, 30000)]
     rule = ("aper-rt: constraint-satisfying random values of NGAPPDU (60%), transfer containers (20%) and arbitrary ngapType types (20%), "
             "plus every leaf wrapper type at boundary values, through Marshal -> Unmarshal -> field-by-field comparison (aperrt) and "
